@@ -8,6 +8,7 @@ import (
 	"os"
 	"path/filepath"
 	"strings"
+	"sync"
 	"time"
 
 	"github.com/rminnich/go9p"
@@ -99,6 +100,9 @@ func c06Cases(tier string, seed int64) []core.Case {
 			}})
 			cases = append(cases, core.Case{ID: fmt.Sprintf("renegotiate/%s/dotu=%v", server, dotu), Run: func(ctx *core.Ctx) core.Result {
 				return c06Renegotiate(ctx, server, dotu)
+			}})
+			cases = append(cases, core.Case{ID: fmt.Sprintf("fresh-users/%s/dotu=%v", server, dotu), Run: func(ctx *core.Ctx) core.Result {
+				return c06FreshUsers(ctx, server, dotu)
 			}})
 			cases = append(cases, core.Case{ID: fmt.Sprintf("cancelled-unstarted/%s/dotu=%v", server, dotu), Run: func(ctx *core.Ctx) core.Result {
 				return c06CancelledUnstarted(ctx, server, dotu)
@@ -1175,6 +1179,84 @@ func c06CancelledUnstarted(ctx *core.Ctx, server string, dotu bool) core.Result 
 				}
 			}
 		}
+	}
+	return res
+}
+
+// c06FreshUsers: many connections at once introduce user and group numbers the server has never seen (Tattach and
+// Tauth carry a 32-bit n_uname straight to the user pool; a stat of a file with an unusual owner does the same):
+// with the bundled user pool behind the Unix file server and behind the scripted implementation.
+func c06FreshUsers(ctx *core.Ctx, server string, dotu bool) core.Result {
+	var res core.Result
+	h := newHostile(ctx, &res, server, dotu)
+	if h == nil {
+		return res
+	}
+	defer h.done()
+	if server == "script" {
+		h.s.Srv.Upool = go9p.OsUsers // the library's own pool instead of the harness's
+	}
+	const conns, per = 12, 150
+	for round := 0; round < 3 && len(res.Violations) == 0; round++ {
+		what := fmt.Sprintf("%s dotu=%v fresh-users round %d: %d connections x %d attaches with new user numbers", server, dotu, round, conns, per)
+		ctx.Note([]byte(what))
+		fmt.Fprintln(os.Stderr, "--- session:", what)
+		var wg sync.WaitGroup
+		dialled := make([]*CConn, conns) // (the session's Dial is not for concurrent use)
+		for ci := range dialled {
+			dialled[ci] = h.s.Dial()
+		}
+		for ci := 0; ci < conns; ci++ {
+			wg.Add(1)
+			go func(ci int) {
+				defer wg.Done()
+				c := dialled[ci]
+				defer c.Hangup()
+				if r, err := c.Version(8192, h.ver(), W); err != nil || r.Msg == nil {
+					return
+				}
+				tag := uint16(0)
+				for i := 0; i < per; i++ {
+					uid := uint32(100000 + round*1000000 + ci*10000 + i)
+					var ms []*wire.Msg
+					for k := 0; k < 4; k++ {
+						tag++
+						ms = append(ms, &wire.Msg{Type: wire.Tattach, Tag: tag, Fid: uint32(10 + k), Afid: wire.NOFID, Uname: fmt.Sprintf("u%d", uid+uint32(k)*250), Nuname: uid + uint32(k)*250})
+					}
+					tag++
+					ms = append(ms, &wire.Msg{Type: wire.Tauth, Tag: tag, Afid: 20, Uname: "x", Nuname: uid + 7, Aname: "a"})
+					_ = c.Send(ms...)
+					for _, m := range ms {
+						if _, err := c.WaitTag(m.Tag, 5*time.Second); err != nil {
+							return
+						}
+					}
+					ms = nil
+					for k := 0; k < 4; k++ {
+						tag++
+						ms = append(ms, &wire.Msg{Type: wire.Tclunk, Tag: tag, Fid: uint32(10 + k)})
+					}
+					tag++
+					ms = append(ms, &wire.Msg{Type: wire.Tclunk, Tag: tag, Fid: 20})
+					_ = c.Send(ms...)
+					for _, m := range ms {
+						c.WaitTag(m.Tag, 5*time.Second)
+					}
+				}
+			}(ci)
+		}
+		done := make(chan struct{})
+		go func() { wg.Wait(); close(done) }()
+		for waiting := true; waiting; {
+			select {
+			case <-done:
+				waiting = false
+			case <-time.After(5 * time.Second):
+				ctx.Beat()
+			}
+		}
+		res.Sig(fmt.Sprintf("%s|%v|fresh-users|%d", server, dotu, round))
+		h.check(what, "fresh-users")
 	}
 	return res
 }
